@@ -8,9 +8,10 @@ import json, os, re, subprocess
 import vlib
 
 SWITCH_FIELDS = ["alias_current", "warnings_cleared", "observer_removal_checked", "remove_flow_checked", "ovf_panics",
-                 "cont_check_first", "path_validated_first", "eval_args_first", "ext_guard_fixed"]
+                 "cont_check_first", "path_validated_first", "eval_args_first", "ext_guard_fixed",
+                 "guard_setvar", "guard_remove_flow", "guard_switch_default", "guard_load"]
 
-UNSUPPORTED = {"SAVE", "LOAD", "LOADNEW", "LOADTEXT", "SHOWSAVE"}
+UNSUPPORTED = {"SAVE", "LOAD", "LOADNEW", "LOADTEXT", "SHOWSAVE", "STACKINFO"}
 
 
 def tq(s):
@@ -62,6 +63,11 @@ def op_term(op):
     if n == "CONT_ASYNC":
         sched = g(1, []) or []
         return "(HContAsync [" + ";".join(f"{int(x)}%N" for x in sched if isinstance(x, int) and x >= 0) + "])"
+    if n == "FINISH":
+        return "HFinish"
+    if n == "CONT_SLICED":
+        sched = g(1, []) or []
+        return "(HContSliced [" + ";".join(f"{int(x)}%N" for x in sched if isinstance(x, int) and x >= 0) + "])"
     if n == "CHOOSE":
         i = g(1, 0)
         return f"(HChoose ({int(i) if isinstance(i, int) else 0})%Z)"
